@@ -1,31 +1,179 @@
 package main
 
 import (
+	"flag"
 	"fmt"
 	"os"
-
-	"golang.org/x/tools/go/packages"
-	"golang.org/x/tools/go/ssa"
-	"golang.org/x/tools/go/ssa/ssautil"
+	"sort"
+	"strings"
+	"time"
 )
 
+var (
+	repoDir    = "/repo"
+	verifDir   = "/verif"
+	externSpec = "/verif/gocv/extern.spec"
+)
+
+type cfgDef struct {
+	name string
+	tags string
+}
+
+var configs = []cfgDef{{"generic", "verif,noasmtest"}, {"amd64", "verif"}}
+
 func main() {
-	cfg := &packages.Config{Mode: packages.LoadAllSyntax, Dir: "/repo", BuildFlags: []string{"-tags=verif,noasmtest"}}
-	pkgs, err := packages.Load(cfg, "./...")
-	if err != nil {
-		panic(err)
+	if len(os.Args) < 2 {
+		fmt.Fprintln(os.Stderr, "usage: gocv verify|check|sweep|layout ...")
+		os.Exit(2)
 	}
-	prog, spkgs := ssautil.AllPackages(pkgs, ssa.NaiveForm|ssa.GlobalDebug)
-	prog.Build()
-	for _, p := range spkgs {
-		if p == nil {
-			continue
-		}
-		for _, m := range p.Members {
-			if f, ok := m.(*ssa.Function); ok && len(os.Args) > 1 && f.Name() == os.Args[1] {
-				f.WriteTo(os.Stdout)
+	switch os.Args[1] {
+	case "verify":
+		cmdVerify(os.Args[2:])
+	case "check":
+		os.Exit(cmdCheck(os.Args[2:]))
+	case "ssa":
+		cmdSSA(os.Args[2:])
+	default:
+		fmt.Fprintln(os.Stderr, "unknown command", os.Args[1])
+		os.Exit(2)
+	}
+}
+
+func cmdSSA(args []string) {
+	fs := flag.NewFlagSet("ssa", flag.ExitOnError)
+	cfg := fs.String("cfg", "generic", "configuration")
+	repo := fs.String("repo", repoDir, "repository")
+	fs.Parse(args)
+	cs := NewContracts()
+	p, err := LoadProg(*repo, *cfg, tagsFor(*cfg), cs)
+	if err != nil {
+		fmt.Fprintln(os.Stderr, err)
+		os.Exit(2)
+	}
+	for _, name := range fs.Args() {
+		for k, fn := range p.funcs {
+			if k == name || strings.HasSuffix(k, name) {
+				fn.WriteTo(os.Stdout)
 			}
 		}
-		fmt.Fprintln(os.Stderr, p.Pkg.Path())
 	}
+}
+
+func tagsFor(cfg string) string {
+	for _, c := range configs {
+		if c.name == cfg {
+			return c.tags
+		}
+	}
+	return "verif"
+}
+
+func cmdVerify(args []string) {
+	fs := flag.NewFlagSet("verify", flag.ExitOnError)
+	cfg := fs.String("cfg", "generic", "configuration")
+	repo := fs.String("repo", repoDir, "repository")
+	timeout := fs.Int("timeout", 10, "solver timeout (s)")
+	show := fs.Bool("show", false, "print queries of failed obligations")
+	dump := fs.String("dump", "", "write the query of the named obligation (substring) to stdout")
+	all := fs.Bool("all", false, "verify every function under contract")
+	fs.Parse(args)
+	cs, err := LoadContracts(*repo, externSpec)
+	if err != nil {
+		fmt.Fprintln(os.Stderr, err)
+		os.Exit(2)
+	}
+	for _, e := range cs.Errs {
+		fmt.Println("CONTRACT ERROR:", e)
+	}
+	t0 := time.Now()
+	p, err := LoadProg(*repo, *cfg, tagsFor(*cfg), cs)
+	if err != nil {
+		fmt.Fprintln(os.Stderr, err)
+		os.Exit(2)
+	}
+	fmt.Printf("loaded %s in %.1fs (%d functions)\n", *cfg, time.Since(t0).Seconds(), len(p.funcs))
+	var keys []string
+	if *all {
+		for k, c := range cs.Funcs {
+			if !c.Trusted && !c.IsVar {
+				keys = append(keys, k)
+			}
+		}
+	}
+	for _, a := range fs.Args() {
+		found := false
+		for k := range p.funcs {
+			if k == a || strings.HasSuffix(k, "."+a) || strings.HasSuffix(k, ")."+a) || strings.HasSuffix(k, a) {
+				keys = append(keys, k)
+				found = true
+			}
+		}
+		if !found {
+			fmt.Println("no function matches", a)
+		}
+	}
+	sort.Strings(keys)
+	for _, k := range keys {
+		fn := p.funcs[k]
+		if fn == nil {
+			fmt.Println("MISSING function for contract", k)
+			continue
+		}
+		t1 := time.Now()
+		r := VerifyFunc(p, fn)
+		gen := time.Since(t1).Seconds()
+		if *dump != "" {
+			for _, o := range r.Obls {
+				if strings.Contains(o.Name, *dump) {
+					fmt.Println(o.Query(true))
+					return
+				}
+			}
+		}
+		solveAll(r.Obls, *timeout, 16)
+		ok, bad := 0, 0
+		for _, o := range r.Obls {
+			if o.Vacuity {
+				if o.Status == "unsat" {
+					bad++
+					fmt.Printf("  VACUOUS %s\n", o.Name)
+				}
+				continue
+			}
+			if o.Status == "unsat" {
+				ok++
+			} else {
+				bad++
+				fmt.Printf("  FAIL %-8s %s  [%s %.2fs] %s  (%s)\n", o.Status, o.Name, o.Solver, o.Time, o.Text, o.Pos)
+				if *show {
+					m := modelFor(o, *timeout)
+					fmt.Println(trimModel(m))
+				}
+			}
+		}
+		fmt.Printf("%s: %d obligations, %d discharged, %d failed, gen %.2fs total %.2fs\n", describeFunc(k), ok+bad, ok, bad, gen, time.Since(t1).Seconds())
+		for _, n := range r.Notes {
+			fmt.Println("  note:", n)
+		}
+		for _, n := range r.SpecErrs {
+			fmt.Println("  SPEC ERROR:", n)
+		}
+	}
+}
+
+func trimModel(m string) string {
+	lines := strings.Split(m, "\n")
+	var out []string
+	for i := 0; i < len(lines); i++ {
+		l := lines[i]
+		if strings.Contains(l, "define-fun") && !strings.Contains(l, "!") {
+			continue
+		}
+		out = append(out, l)
+		if len(out) > 120 {
+			break
+		}
+	}
+	return strings.Join(out, "\n")
 }
